@@ -1,31 +1,46 @@
-// eventwriter: common/event/writer.go — the constants and the small decision tables the C19 model
-// (coq/model/EventWriter.v) is parameterised by:
+// eventwriter: common/event/writer.go + fifobuffer.go — the constants and the small decision
+// tables the C19 model (coq/model/EventWriter.v) is parameterised by:
 //   - capacity of toBatchMessagesChan and of batchingLoopDoneCh in NewWriterWithTopic,
 //   - the PopMultiple argument in the `default:` branch of writingLoop's select,
 //   - whether the `case <-w.batchingLoopDoneCh:` branch drains the buffer before returning
-//     (a `for ... Length() > 0 { ... PopMultiple(k) ... }` loop) and with which k,
+//     (a loop "while Length() > 0: sendBatch(PopMultiple(k))") and with which k,
 //   - the key source of every case clause of the type switch in internalEventToKafkaEvent
-//     (none / e.Taskid / extractAndConvertEnvID(e)).
-//   - (common/event/fifobuffer.go) whether ReleaseGoroutines sets a flag before its Broadcast that
-//     PopMultiple tests, inside its empty-buffer loop and before cond.Wait, to return at once,
+//     (none / the task id / the environment id),
+//   - (fifobuffer.go) whether ReleaseGoroutines sets a flag before its Broadcast that PopMultiple
+//     tests, inside its empty-buffer loop and before cond.Wait, to return at once,
 //   - the producer side (WriteEvent / WriteEventWithTimestamp): that the hand-over to the batching
 //     loop is ONE plain blocking send of the converted message on toBatchMessagesChan — the only
-//     send on that channel in the file, not a case of a select, not inside a go / defer statement,
-//     a loop or a stored closure, no select and no go statement in the two functions at all, and
-//     the value sent is the local the conversion (internalEventToKafkaEvent, then
-//     kafkaEventToKafkaMessage, directly or through helpers of writer.go) produced before the send.
-//     Reported as five booleans (ew_pub_*); a function without any send on the channel, or a
-//     WriteEvent that does not call WriteEventWithTimestamp, is an unknown shape (failure).
+//     send on that channel in the package, not a case of a select, not inside a go / defer
+//     statement, a loop or a stored closure, no select and no go statement on the way, and the
+//     value sent is what the conversion (internalEventToKafkaEvent, then
+//     kafkaEventToKafkaMessage) produced before the send.  Reported as five booleans (ew_pub_*).
 // It also checks the skeleton the model takes for granted (batchingLoop: range over the channel,
 // Push, send on the done channel, ReleaseGoroutines, Done — in this order; Close: Add(2), close of
 // the channel, Wait — in this order) and fails when it is not found.
+//
+// What is read is the code with the clean-ups maintainers make all the time undone:
+//   - calls of unexported helper functions / methods of the package (any file of common/event) are
+//     followed, three levels deep: a helper called as a statement is inlined into the statement
+//     list (parameters become `p := arg` definitions), a helper called inside an expression is
+//     searched when a call is looked for, `go helper(..)` / `defer helper(..)` become go / defer of a
+//     closure with the helper's body;
+//   - integer constants: literals, package-level constants and variables of any file of the
+//     package, locals assigned once, parentheses, + - *, integer conversions, helpers that return one;
+//   - locals are traced through their assignments (renaming, hoisting of sub-expressions);
+//   - a struct built by field assignments instead of a composite literal; if / switch / early
+//     return around the statements looked for; the order of independent statements; comments.
+// The names the patterns hang on (the anchors: fields toBatchMessagesChan, batchingLoopDoneCh,
+// the functions below) are never inlined and must keep their names.
 package main
 
 import (
 	"fmt"
 	"go/ast"
 	"go/token"
+	"os"
+	"sort"
 	"strings"
+	"unicode"
 )
 
 func init() { translators["eventwriter"] = eventWriter }
@@ -37,16 +52,76 @@ var ewKinds = []string{
 	"Ev_IntegratedServiceEvent", "Ev_RunEvent",
 }
 
-func ewConstInt(f *ast.File, e ast.Expr) (int64, bool) {
-	if n, ok := intLit(e); ok {
-		return n, true
+// ---------- the package ----------
+
+type ewPkg struct {
+	files []*ast.File
+	funcs map[string][]*ast.FuncDecl
+	scope ast.Node // the inlined body under analysis: locals (and bound helper parameters) are looked up here first
+}
+
+// functions the patterns are anchored in: never inlined
+var ewAnchor = map[string]bool{
+	"sendBatch": true, "writingLoop": true, "batchingLoop": true, "writeFunction": true,
+	"internalEventToKafkaEvent": true, "kafkaEventToKafkaMessage": true,
+	"extractAndConvertEnvID": true, "newMetric": true,
+}
+
+func ewLoadPkg(dir string) *ewPkg {
+	ents, err := os.ReadDir(repo + "/" + dir)
+	if err != nil {
+		die("eventwriter: cannot read %s: %v", dir, err)
 	}
-	if id, ok := e.(*ast.Ident); ok {
-		if v := findValue(f, id.Name); v != nil {
-			return intLit(v)
+	p := &ewPkg{funcs: map[string][]*ast.FuncDecl{}}
+	var names []string
+	for _, e := range ents {
+		n := e.Name()
+		if e.IsDir() || !strings.HasSuffix(n, ".go") || strings.HasSuffix(n, "_test.go") || strings.HasPrefix(n, "zz_verif_") {
+			continue
+		}
+		names = append(names, n)
+	}
+	sort.Strings(names)
+	for _, n := range names {
+		_, f := parseFile(dir + "/" + n)
+		p.files = append(p.files, f)
+		for _, d := range f.Decls {
+			if fd, ok := d.(*ast.FuncDecl); ok && fd.Body != nil {
+				p.funcs[fd.Name.Name] = append(p.funcs[fd.Name.Name], fd)
+			}
 		}
 	}
-	return 0, false
+	return p
+}
+
+func (p *ewPkg) value(name string) ast.Expr {
+	for _, f := range p.files {
+		if v := findValue(f, name); v != nil {
+			return v
+		}
+	}
+	return nil
+}
+
+func (p *ewPkg) fn(recv, name string) *ast.FuncDecl {
+	for _, f := range p.files {
+		if fd := findFunc(f, recv, name); fd != nil && fd.Body != nil {
+			return fd
+		}
+	}
+	return nil
+}
+
+// the function declaration whose body contains n (by position)
+func (p *ewPkg) enclosing(n ast.Node) *ast.FuncDecl {
+	for _, fds := range p.funcs {
+		for _, fd := range fds {
+			if fd.Pos() <= n.Pos() && n.Pos() < fd.End() {
+				return fd
+			}
+		}
+	}
+	return nil
 }
 
 // selector chain ends with name, e.g. w.messageBuffer.PopMultiple -> "PopMultiple"
@@ -60,18 +135,228 @@ func ewCallName(c *ast.CallExpr) string {
 		if id, ok := fn.X.(*ast.Ident); ok {
 			return id.Name
 		}
+	case *ast.ParenExpr:
+		return ""
 	}
 	return ""
 }
 
-func ewFindCalls(n ast.Node, name string) []*ast.CallExpr {
+// helper: the unexported, non-anchor function or method of the package that c calls (unique by
+// name), nil otherwise
+func (p *ewPkg) helper(c *ast.CallExpr) *ast.FuncDecl {
+	name := ewCallName(c)
+	if name == "" || ewAnchor[name] || !unicode.IsLower([]rune(name)[0]) {
+		return nil
+	}
+	fds := p.funcs[name]
+	if len(fds) != 1 {
+		return nil
+	}
+	return fds[0]
+}
+
+const ewDepth = 3
+
+// ---------- inlining of helpers called as statements ----------
+
+func ewHasReturn(list []ast.Stmt) bool {
+	found := false
+	for _, s := range list {
+		ast.Inspect(s, func(x ast.Node) bool {
+			switch x.(type) {
+			case *ast.ReturnStmt:
+				found = true
+			case *ast.FuncLit:
+				return false
+			}
+			return !found
+		})
+	}
+	return found
+}
+
+// `p := arg` for every named parameter of fd
+func ewBindParams(fd *ast.FuncDecl, c *ast.CallExpr) []ast.Stmt {
+	var names []*ast.Ident
+	if fd.Type.Params != nil {
+		for _, f := range fd.Type.Params.List {
+			if _, variadic := f.Type.(*ast.Ellipsis); variadic {
+				return nil
+			}
+			names = append(names, f.Names...)
+		}
+	}
+	if len(names) != len(c.Args) {
+		return nil
+	}
+	var out []ast.Stmt
+	for i, n := range names {
+		if n.Name == "_" {
+			continue
+		}
+		out = append(out, &ast.AssignStmt{Lhs: []ast.Expr{ast.NewIdent(n.Name)}, Tok: token.DEFINE, TokPos: c.Pos(), Rhs: []ast.Expr{c.Args[i]}})
+	}
+	return out
+}
+
+// inlined body of the helper c calls (nil when c does not call a helper)
+func (p *ewPkg) inlineCall(c *ast.CallExpr, depth int) []ast.Stmt {
+	if depth >= ewDepth {
+		return nil
+	}
+	h := p.helper(c)
+	if h == nil {
+		return nil
+	}
+	body := append(ewBindParams(h, c), p.expandList(h.Body.List, depth+1)...)
+	if len(body) == 0 {
+		body = []ast.Stmt{&ast.EmptyStmt{Semicolon: c.Pos()}}
+	}
+	return body
+}
+
+func (p *ewPkg) expandBlock(b *ast.BlockStmt, depth int) *ast.BlockStmt {
+	if b == nil {
+		return nil
+	}
+	return &ast.BlockStmt{Lbrace: b.Lbrace, List: p.expandList(b.List, depth), Rbrace: b.Rbrace}
+}
+
+// a call whose function is a literal: expand inside the literal
+func (p *ewPkg) expandLitCall(c *ast.CallExpr, depth int) *ast.CallExpr {
+	if fl, ok := c.Fun.(*ast.FuncLit); ok {
+		return &ast.CallExpr{Fun: &ast.FuncLit{Type: fl.Type, Body: p.expandBlock(fl.Body, depth)}, Lparen: c.Lparen, Args: c.Args, Rparen: c.Rparen}
+	}
+	return nil
+}
+
+// go f(..) / defer f(..): of a literal -> expanded literal; of a helper -> a literal with its body
+func (p *ewPkg) expandAsyncCall(c *ast.CallExpr, depth int) *ast.CallExpr {
+	if lc := p.expandLitCall(c, depth); lc != nil {
+		return lc
+	}
+	if body := p.inlineCall(c, depth); body != nil {
+		return &ast.CallExpr{Fun: &ast.FuncLit{Type: &ast.FuncType{Params: &ast.FieldList{}}, Body: &ast.BlockStmt{Lbrace: c.Pos(), List: body, Rbrace: c.End()}}, Lparen: c.Lparen, Rparen: c.Rparen}
+	}
+	return c
+}
+
+func (p *ewPkg) expandList(list []ast.Stmt, depth int) []ast.Stmt {
+	var out []ast.Stmt
+	for _, s := range list {
+		if es, ok := s.(*ast.ExprStmt); ok {
+			if c, ok := es.X.(*ast.CallExpr); ok {
+				if body := p.inlineCall(c, depth); body != nil {
+					if ewHasReturn(body) {
+						out = append(out, &ast.BlockStmt{Lbrace: c.Pos(), List: body, Rbrace: c.End()})
+					} else {
+						out = append(out, body...)
+					}
+					continue
+				}
+			}
+		}
+		out = append(out, p.expandStmt(s, depth))
+	}
+	return out
+}
+
+func (p *ewPkg) expandStmt(s ast.Stmt, depth int) ast.Stmt {
+	switch v := s.(type) {
+	case *ast.BlockStmt:
+		return p.expandBlock(v, depth)
+	case *ast.IfStmt:
+		n := *v
+		n.Body = p.expandBlock(v.Body, depth)
+		if v.Else != nil {
+			n.Else = p.expandStmt(v.Else, depth)
+		}
+		return &n
+	case *ast.ForStmt:
+		n := *v
+		n.Body = p.expandBlock(v.Body, depth)
+		return &n
+	case *ast.RangeStmt:
+		n := *v
+		n.Body = p.expandBlock(v.Body, depth)
+		return &n
+	case *ast.SwitchStmt:
+		n := *v
+		n.Body = p.expandBlock(v.Body, depth)
+		return &n
+	case *ast.TypeSwitchStmt:
+		n := *v
+		n.Body = p.expandBlock(v.Body, depth)
+		return &n
+	case *ast.SelectStmt:
+		n := *v
+		n.Body = p.expandBlock(v.Body, depth)
+		return &n
+	case *ast.CaseClause:
+		n := *v
+		n.Body = p.expandList(v.Body, depth)
+		return &n
+	case *ast.CommClause:
+		n := *v
+		n.Body = p.expandList(v.Body, depth)
+		return &n
+	case *ast.LabeledStmt:
+		n := *v
+		n.Stmt = p.expandStmt(v.Stmt, depth)
+		return &n
+	case *ast.ExprStmt:
+		if c, ok := v.X.(*ast.CallExpr); ok {
+			if lc := p.expandLitCall(c, depth); lc != nil {
+				return &ast.ExprStmt{X: lc}
+			}
+		}
+	case *ast.GoStmt:
+		return &ast.GoStmt{Go: v.Go, Call: p.expandAsyncCall(v.Call, depth)}
+	case *ast.DeferStmt:
+		return &ast.DeferStmt{Defer: v.Defer, Call: p.expandAsyncCall(v.Call, depth)}
+	}
+	return s
+}
+
+// the body of fd with helper statements inlined
+func (p *ewPkg) body(fd *ast.FuncDecl) *ast.BlockStmt { return p.expandBlock(fd.Body, 0) }
+
+// top-level statements with nested plain blocks flattened
+func ewFlatten(list []ast.Stmt) []ast.Stmt {
+	var out []ast.Stmt
+	for _, s := range list {
+		if b, ok := s.(*ast.BlockStmt); ok {
+			out = append(out, ewFlatten(b.List)...)
+		} else {
+			out = append(out, s)
+		}
+	}
+	return out
+}
+
+// ---------- searching ----------
+
+// calls of name inside n, following helpers called inside expressions
+func (p *ewPkg) findCalls(n ast.Node, name string) []*ast.CallExpr {
+	return p.findCallsD(n, name, 0)
+}
+
+func (p *ewPkg) findCallsD(n ast.Node, name string, depth int) []*ast.CallExpr {
 	var out []*ast.CallExpr
 	if n == nil {
 		return out
 	}
 	ast.Inspect(n, func(x ast.Node) bool {
-		if c, ok := x.(*ast.CallExpr); ok && ewCallName(c) == name {
+		c, ok := x.(*ast.CallExpr)
+		if !ok {
+			return true
+		}
+		if ewCallName(c) == name {
 			out = append(out, c)
+		} else if depth < ewDepth {
+			if h := p.helper(c); h != nil {
+				out = append(out, p.findCallsD(h.Body, name, depth+1)...)
+			}
 		}
 		return true
 	})
@@ -96,61 +381,221 @@ func ewMentions(n ast.Node, ident string) bool {
 	return found
 }
 
-func eventWriter() string {
-	_, f := parseFile("common/event/writer.go")
+// mentions, following helpers called inside the expression
+func (p *ewPkg) mentionsDeep(n ast.Node, ident string, depth int) bool {
+	if n == nil {
+		return false
+	}
+	if ewMentions(n, ident) {
+		return true
+	}
+	if depth >= ewDepth {
+		return false
+	}
+	found := false
+	ast.Inspect(n, func(x ast.Node) bool {
+		if c, ok := x.(*ast.CallExpr); ok && !found {
+			if h := p.helper(c); h != nil && p.mentionsDeep(h.Body, ident, depth+1) {
+				found = true
+			}
+		}
+		return !found
+	})
+	return found
+}
 
-	// ---- NewWriterWithTopic: channel capacities
-	nw := findFunc(f, "", "NewWriterWithTopic")
+// mentionsVia: e mentions ident, directly, inside a helper it calls, or through a local of scope
+// (assigned once) that it uses
+func (p *ewPkg) mentionsVia(e ast.Node, scope ast.Node, ident string, depth int) bool {
+	if p.mentionsDeep(e, ident, 0) {
+		return true
+	}
+	if depth >= 3 {
+		return false
+	}
+	found := false
+	ast.Inspect(e, func(x ast.Node) bool {
+		if id, ok := x.(*ast.Ident); ok && !found {
+			if lv := ewLocalValue(scope, id.Name); lv != nil && p.mentionsVia(lv, scope, ident, depth+1) {
+				found = true
+			}
+		}
+		return !found
+	})
+	return found
+}
+
+// the expression assigned to the local name inside scope, when it is assigned exactly once
+func ewLocalValue(scope ast.Node, name string) ast.Expr {
+	var vals []ast.Expr
+	n := 0
+	ast.Inspect(scope, func(x ast.Node) bool {
+		switch v := x.(type) {
+		case *ast.AssignStmt:
+			for i, l := range v.Lhs {
+				if id, ok := l.(*ast.Ident); ok && id.Name == name {
+					n++
+					if len(v.Rhs) == len(v.Lhs) {
+						vals = append(vals, v.Rhs[i])
+					}
+				}
+			}
+		case *ast.ValueSpec:
+			for i, id := range v.Names {
+				if id.Name == name {
+					n++
+					if i < len(v.Values) {
+						vals = append(vals, v.Values[i])
+					}
+				}
+			}
+		case *ast.IncDecStmt:
+			if id, ok := v.X.(*ast.Ident); ok && id.Name == name {
+				n += 2
+			}
+		}
+		return true
+	})
+	if n == 1 && len(vals) == 1 {
+		return vals[0]
+	}
+	return nil
+}
+
+var ewIntTypes = map[string]bool{"int": true, "uint": true, "int32": true, "uint32": true, "int64": true, "uint64": true, "uintptr": true}
+
+// constInt: the integer e denotes
+func (p *ewPkg) constInt(e ast.Expr, depth int) (int64, bool) {
+	if depth > 8 {
+		return 0, false
+	}
+	if n, ok := intLit(e); ok {
+		return n, true
+	}
+	switch v := e.(type) {
+	case *ast.ParenExpr:
+		return p.constInt(v.X, depth+1)
+	case *ast.BinaryExpr:
+		a, ok1 := p.constInt(v.X, depth+1)
+		b, ok2 := p.constInt(v.Y, depth+1)
+		if ok1 && ok2 {
+			switch v.Op {
+			case token.ADD:
+				return a + b, true
+			case token.SUB:
+				return a - b, true
+			case token.MUL:
+				return a * b, true
+			}
+		}
+	case *ast.CallExpr:
+		if id, ok := v.Fun.(*ast.Ident); ok && ewIntTypes[id.Name] && len(v.Args) == 1 {
+			return p.constInt(v.Args[0], depth+1)
+		}
+		if h := p.helper(v); h != nil && len(h.Body.List) == 1 {
+			if r, ok := h.Body.List[0].(*ast.ReturnStmt); ok && len(r.Results) == 1 {
+				return p.constInt(r.Results[0], depth+1)
+			}
+		}
+	case *ast.Ident:
+		if p.scope != nil {
+			if x := ewLocalValue(p.scope, v.Name); x != nil {
+				return p.constInt(x, depth+1)
+			}
+		}
+		if fd := p.enclosing(v); fd != nil {
+			if x := ewLocalValue(fd.Body, v.Name); x != nil {
+				return p.constInt(x, depth+1)
+			}
+		}
+		if x := p.value(v.Name); x != nil {
+			return p.constInt(x, depth+1)
+		}
+	}
+	return 0, false
+}
+
+// ---------- the translator ----------
+
+func eventWriter() string {
+	p := ewLoadPkg("common/event")
+
+	// ---- NewWriterWithTopic: channel capacities, the two loops
+	nw := p.fn("", "NewWriterWithTopic")
 	if nw == nil {
 		die("eventwriter: NewWriterWithTopic not found")
 	}
+	nwBody := p.body(nw)
+	p.scope = nwBody
 	chanCap, doneCap := int64(-1), int64(-1)
-	ast.Inspect(nw, func(x ast.Node) bool {
-		kv, ok := x.(*ast.KeyValueExpr)
-		if !ok {
-			return true
-		}
-		k, ok := kv.Key.(*ast.Ident)
-		if !ok {
-			return true
-		}
-		c, ok := kv.Value.(*ast.CallExpr)
-		if !ok || ewCallName(c) != "make" {
-			return true
+	setCap := func(field string, v ast.Expr) {
+		c, ok := v.(*ast.CallExpr)
+		if !ok || ewCallName(c) != "make" || len(c.Args) == 0 {
+			return
 		}
 		if _, isChan := c.Args[0].(*ast.ChanType); !isChan {
-			return true
+			return
 		}
 		capv := int64(0)
 		if len(c.Args) >= 2 {
-			v, ok := ewConstInt(f, c.Args[1])
+			n, ok := p.constInt(c.Args[1], 0)
 			if !ok {
-				die("eventwriter: capacity of %s is not a literal", k.Name)
+				die("eventwriter: capacity of %s is not an integer constant", field)
 			}
-			capv = v
+			capv = n
 		}
-		switch k.Name {
+		switch field {
 		case "toBatchMessagesChan":
 			chanCap = capv
 		case "batchingLoopDoneCh":
 			doneCap = capv
+		}
+	}
+	ast.Inspect(nwBody, func(x ast.Node) bool {
+		switch v := x.(type) {
+		case *ast.KeyValueExpr:
+			if k, ok := v.Key.(*ast.Ident); ok {
+				val := v.Value
+				if id, ok := val.(*ast.Ident); ok {
+					if lv := ewLocalValue(nw.Body, id.Name); lv != nil {
+						val = lv
+					}
+				}
+				setCap(k.Name, val)
+			}
+		case *ast.AssignStmt:
+			if len(v.Lhs) == len(v.Rhs) {
+				for i, l := range v.Lhs {
+					if sel, ok := l.(*ast.SelectorExpr); ok {
+						val := v.Rhs[i]
+						if id, ok := val.(*ast.Ident); ok {
+							if lv := ewLocalValue(nw.Body, id.Name); lv != nil {
+								val = lv
+							}
+						}
+						setCap(sel.Sel.Name, val)
+					}
+				}
+			}
 		}
 		return true
 	})
 	if chanCap < 0 || doneCap < 0 {
 		die("eventwriter: make(chan ...) of toBatchMessagesChan / batchingLoopDoneCh not found in NewWriterWithTopic")
 	}
-	if len(ewFindGo(nw, "writingLoop")) != 1 || len(ewFindGo(nw, "batchingLoop")) != 1 {
+	if len(ewFindGo(nwBody, "writingLoop")) != 1 || len(ewFindGo(nwBody, "batchingLoop")) != 1 {
 		die("eventwriter: NewWriterWithTopic does not start exactly one writingLoop and one batchingLoop")
 	}
 
 	// ---- writingLoop: for { select { case <-done: ...; default: sendBatch(PopMultiple(k)) } }
-	wl := findFunc(f, "KafkaWriter", "writingLoop")
+	wl := p.fn("KafkaWriter", "writingLoop")
 	if wl == nil {
 		die("eventwriter: writingLoop not found")
 	}
+	wlBody := p.body(wl)
+	p.scope = wlBody
 	var sel *ast.SelectStmt
-	ast.Inspect(wl, func(x ast.Node) bool {
+	ast.Inspect(wlBody, func(x ast.Node) bool {
 		if s, ok := x.(*ast.SelectStmt); ok && sel == nil {
 			sel = s
 		}
@@ -173,19 +618,19 @@ func eventWriter() string {
 	}
 	defBlock := &ast.BlockStmt{List: defClause.Body}
 	doneBlock := &ast.BlockStmt{List: doneClause.Body}
-	pops := ewFindCalls(defBlock, "PopMultiple")
-	if len(pops) != 1 || len(ewFindCalls(defBlock, "sendBatch")) != 1 {
+	pops := p.findCalls(defBlock, "PopMultiple")
+	if len(pops) != 1 || len(p.findCalls(defBlock, "sendBatch")) != 1 {
 		die("eventwriter: default branch is not one sendBatch(PopMultiple(k))")
 	}
-	batchMax, ok := ewConstInt(f, pops[0].Args[0])
+	batchMax, ok := p.constInt(pops[0].Args[0], 0)
 	if !ok {
 		die("eventwriter: PopMultiple argument in the default branch is not a constant")
 	}
-	if len(ewFindCalls(doneBlock, "Done")) != 1 {
+	if len(p.findCalls(doneBlock, "Done")) != 1 {
 		die("eventwriter: done branch does not call runningWorkers.Done() exactly once")
 	}
 	hasReturn := false
-	for _, s := range doneClause.Body {
+	for _, s := range ewFlatten(doneClause.Body) {
 		if _, ok := s.(*ast.ReturnStmt); ok {
 			hasReturn = true
 		}
@@ -195,47 +640,45 @@ func eventWriter() string {
 	}
 	drain := false
 	drainMax := batchMax
-	for _, s := range doneClause.Body {
-		fs, ok := s.(*ast.ForStmt)
+	ast.Inspect(doneBlock, func(x ast.Node) bool {
+		fs, ok := x.(*ast.ForStmt)
+		if !ok || drain {
+			return true
+		}
+		pp := p.findCalls(fs.Body, "PopMultiple")
+		if len(pp) != 1 || len(p.findCalls(fs.Body, "sendBatch")) != 1 {
+			return true
+		}
+		if !p.ewWhileNonEmpty(fs) {
+			return true
+		}
+		k, ok := p.constInt(pp[0].Args[0], 0)
 		if !ok {
-			continue
+			die("eventwriter: PopMultiple argument in the drain loop is not a constant")
 		}
-		be, ok := fs.Cond.(*ast.BinaryExpr)
-		if !ok || fs.Init != nil || fs.Post != nil {
-			continue
-		}
-		zero, isLit := intLit(be.Y)
-		if len(ewFindCalls(be.X, "Length")) == 1 && isLit && zero == 0 && (be.Op == token.GTR || be.Op == token.NEQ) {
-			p := ewFindCalls(fs.Body, "PopMultiple")
-			if len(p) == 1 && len(ewFindCalls(fs.Body, "sendBatch")) == 1 {
-				k, ok := ewConstInt(f, p[0].Args[0])
-				if !ok {
-					die("eventwriter: PopMultiple argument in the drain loop is not a constant")
-				}
-				drain, drainMax = true, k
-			}
-		}
-	}
-	if !drain && (len(ewFindCalls(doneBlock, "PopMultiple")) > 0 || len(ewFindCalls(doneBlock, "sendBatch")) > 0) {
+		drain, drainMax = true, k
+		return true
+	})
+	if !drain && (len(p.findCalls(doneBlock, "PopMultiple")) > 0 || len(p.findCalls(doneBlock, "sendBatch")) > 0) {
 		die("eventwriter: done branch sends batches in a shape the model does not know")
 	}
 
-	// ---- sendBatch: empty batches are skipped, the write function is called once
-	sb := findFunc(f, "KafkaWriter", "sendBatch")
-	if sb == nil || len(ewFindCalls(sb, "writeFunction")) != 1 {
+	// ---- sendBatch: the write function is called once
+	sb := p.fn("KafkaWriter", "sendBatch")
+	if sb == nil || len(p.findCalls(p.body(sb), "writeFunction")) != 1 {
 		die("eventwriter: sendBatch does not call writeFunction exactly once")
 	}
 
 	// ---- batchingLoop skeleton, in order
-	bl := findFunc(f, "KafkaWriter", "batchingLoop")
+	bl := p.fn("KafkaWriter", "batchingLoop")
 	if bl == nil {
 		die("eventwriter: batchingLoop not found")
 	}
 	stage := 0
-	for _, s := range bl.Body.List {
+	for _, s := range ewFlatten(p.body(bl).List) {
 		switch v := s.(type) {
 		case *ast.RangeStmt:
-			if stage == 0 && ewMentions(v.X, "toBatchMessagesChan") && len(ewFindCalls(v.Body, "Push")) == 1 {
+			if stage == 0 && ewMentions(v.X, "toBatchMessagesChan") && len(p.findCalls(v.Body, "Push")) == 1 {
 				stage = 1
 			}
 		case *ast.SendStmt:
@@ -257,23 +700,27 @@ func eventWriter() string {
 	}
 
 	// ---- Close skeleton, in order: Add(2); close(chan); Wait()
-	cl := findFunc(f, "KafkaWriter", "Close")
+	cl := p.fn("KafkaWriter", "Close")
 	if cl == nil {
 		die("eventwriter: Close not found")
 	}
 	stage = 0
-	ast.Inspect(cl, func(x ast.Node) bool {
+	clBody := p.body(cl)
+	p.scope = clBody
+	ast.Inspect(clBody, func(x ast.Node) bool {
 		c, ok := x.(*ast.CallExpr)
 		if !ok {
 			return true
 		}
 		switch ewCallName(c) {
 		case "Add":
-			if n, ok := intLit(c.Args[0]); ok && n == 2 && stage == 0 {
-				stage = 1
+			if len(c.Args) == 1 {
+				if n, ok := p.constInt(c.Args[0], 0); ok && n == 2 && stage == 0 {
+					stage = 1
+				}
 			}
 		case "close":
-			if stage == 1 && ewMentions(c.Args[0], "toBatchMessagesChan") {
+			if stage == 1 && len(c.Args) == 1 && ewMentions(c.Args[0], "toBatchMessagesChan") {
 				stage = 2
 			}
 		case "Wait":
@@ -288,12 +735,25 @@ func eventWriter() string {
 	}
 
 	// ---- key selection: type switch of internalEventToKafkaEvent
-	ie := findFunc(f, "", "internalEventToKafkaEvent")
+	ie := p.fn("", "internalEventToKafkaEvent")
 	if ie == nil {
 		die("eventwriter: internalEventToKafkaEvent not found")
 	}
+	keyName := "key"
+	if ie.Type.Results != nil {
+		var names []string
+		for _, f := range ie.Type.Results.List {
+			for _, n := range f.Names {
+				names = append(names, n.Name)
+			}
+		}
+		if len(names) == 3 {
+			keyName = names[1]
+		}
+	}
+	ieBody := p.body(ie)
 	var ts *ast.TypeSwitchStmt
-	ast.Inspect(ie, func(x ast.Node) bool {
+	ast.Inspect(ieBody, func(x ast.Node) bool {
 		if s, ok := x.(*ast.TypeSwitchStmt); ok && ts == nil {
 			ts = s
 		}
@@ -306,6 +766,9 @@ func eventWriter() string {
 	for i, k := range ewKinds {
 		kindIdx[k] = i
 	}
+	// extractAndConvertEnvID must read the environment id
+	ex := p.fn("", "extractAndConvertEnvID")
+	exReadsEnv := ex != nil && (len(p.findCalls(p.body(ex), "GetEnvironmentId")) == 1 || p.mentionsDeep(ex.Body, "EnvironmentId", 0))
 	src := map[int]int{}
 	for _, c := range ts.Body.List {
 		cc := c.(*ast.CaseClause)
@@ -330,7 +793,7 @@ func eventWriter() string {
 			if !ewMentions(body, "Payload") {
 				die("eventwriter: case %s does not set the payload", name)
 			}
-			// first assignment to `key`
+			// first assignment to the key result
 			ks := 0
 			seen := false
 			ast.Inspect(body, func(x ast.Node) bool {
@@ -339,19 +802,35 @@ func eventWriter() string {
 					return true
 				}
 				id, ok := as.Lhs[0].(*ast.Ident)
-				if !ok || id.Name != "key" {
+				if !ok || id.Name != keyName {
 					return true
 				}
 				seen = true
-				call, ok := as.Rhs[0].(*ast.CallExpr)
-				if !ok {
-					die("eventwriter: case %s: key assigned from an unknown expression", name)
+				rhs := as.Rhs[0]
+				for hop := 0; hop < 4; hop++ { // a hoisted local
+					rid, ok := rhs.(*ast.Ident)
+					if !ok {
+						break
+					}
+					lv := ewLocalValue(body, rid.Name)
+					if lv == nil {
+						break
+					}
+					rhs = lv
+				}
+				taskID := p.mentionsVia(rhs, body, "Taskid", 0) || p.mentionsVia(rhs, body, "GetTaskid", 0)
+				envID := p.mentionsVia(rhs, body, "GetEnvironmentId", 0) || p.mentionsVia(rhs, body, "EnvironmentId", 0)
+				if call, ok := rhs.(*ast.CallExpr); ok && ewCallName(call) == "extractAndConvertEnvID" {
+					if !exReadsEnv {
+						die("eventwriter: extractAndConvertEnvID does not read GetEnvironmentId()")
+					}
+					envID = true
 				}
 				switch {
-				case ewCallName(call) == "extractAndConvertEnvID":
-					ks = 2
-				case len(call.Args) == 1 && ewMentions(call.Args[0], "Taskid"):
+				case taskID && !envID:
 					ks = 1
+				case envID && !taskID:
+					ks = 2
 				default:
 					die("eventwriter: case %s: key assigned from an unknown expression", name)
 				}
@@ -360,14 +839,9 @@ func eventWriter() string {
 			src[idx] = ks
 		}
 	}
-	// extractAndConvertEnvID must read GetEnvironmentId
-	ex := findFunc(f, "", "extractAndConvertEnvID")
-	if ex == nil || len(ewFindCalls(ex, "GetEnvironmentId")) != 1 {
-		die("eventwriter: extractAndConvertEnvID does not read GetEnvironmentId()")
-	}
 
-	sticky := ewReleaseSticky()
-	pub := ewPublishShape(f)
+	sticky := p.ewReleaseSticky()
+	pub := p.ewPublishShape()
 
 	var b strings.Builder
 	b.WriteString("(* regenerated on every run by harness/cmd/translate (eventwriter) from\n   common/event/writer.go and common/event/fifobuffer.go *)\n")
@@ -405,6 +879,87 @@ func eventWriter() string {
 	return b.String()
 }
 
+// ewWhileNonEmpty: fs runs as long as Length() is not 0 — `for Length() > 0` / `!= 0` /
+// `0 < Length()`, or a loop without condition that leaves (break / return) on `Length() == 0`
+// (`<= 0`, `< 1`); the length may have been hoisted into a local of the loop.
+func (p *ewPkg) ewWhileNonEmpty(fs *ast.ForStmt) bool {
+	isLen := func(e ast.Expr) bool {
+		if len(p.findCalls(e, "Length")) == 1 {
+			return true
+		}
+		if id, ok := e.(*ast.Ident); ok {
+			if lv := ewLocalValue(fs, id.Name); lv != nil && len(p.findCalls(lv, "Length")) == 1 {
+				return true
+			}
+			// assigned in Init and Post
+			n := 0
+			ast.Inspect(fs, func(x ast.Node) bool {
+				if as, ok := x.(*ast.AssignStmt); ok && len(as.Lhs) == 1 && len(as.Rhs) == 1 {
+					if l, ok := as.Lhs[0].(*ast.Ident); ok && l.Name == id.Name && len(p.findCalls(as.Rhs[0], "Length")) == 1 {
+						n++
+					}
+				}
+				return true
+			})
+			return n >= 1
+		}
+		return false
+	}
+	// normalise to  Length <op> n
+	norm := func(be *ast.BinaryExpr) (token.Token, int64, bool) {
+		if n, ok := p.constInt(be.Y, 0); ok && isLen(be.X) {
+			return be.Op, n, true
+		}
+		if n, ok := p.constInt(be.X, 0); ok && isLen(be.Y) {
+			flip := map[token.Token]token.Token{token.LSS: token.GTR, token.GTR: token.LSS, token.LEQ: token.GEQ, token.GEQ: token.LEQ, token.EQL: token.EQL, token.NEQ: token.NEQ}
+			return flip[be.Op], n, true
+		}
+		return 0, 0, false
+	}
+	nonEmpty := func(op token.Token, n int64) bool {
+		return (op == token.GTR && n == 0) || (op == token.NEQ && n == 0) || (op == token.GEQ && n == 1)
+	}
+	empty := func(op token.Token, n int64) bool {
+		return (op == token.EQL && n == 0) || (op == token.LEQ && n == 0) || (op == token.LSS && n == 1)
+	}
+	if fs.Cond != nil {
+		be, ok := fs.Cond.(*ast.BinaryExpr)
+		if !ok {
+			return false
+		}
+		op, n, ok := norm(be)
+		return ok && nonEmpty(op, n)
+	}
+	// for { if Length() == 0 { break }; ... }
+	for _, s := range fs.Body.List {
+		is, ok := s.(*ast.IfStmt)
+		if !ok {
+			continue
+		}
+		be, ok := is.Cond.(*ast.BinaryExpr)
+		if !ok {
+			continue
+		}
+		op, n, ok := norm(be)
+		if !ok || !empty(op, n) {
+			continue
+		}
+		leaves := false
+		for _, bs := range is.Body.List {
+			switch v := bs.(type) {
+			case *ast.BranchStmt:
+				if v.Tok == token.BREAK {
+					leaves = true
+				}
+			}
+		}
+		if leaves {
+			return true
+		}
+	}
+	return false
+}
+
 // `go w.<name>()` statements
 func ewFindGo(n ast.Node, name string) []*ast.GoStmt {
 	var out []*ast.GoStmt
@@ -418,10 +973,9 @@ func ewFindGo(n ast.Node, name string) []*ast.GoStmt {
 }
 
 // method of the generic type FifoBuffer[T]
-func ewFifoMethod(f *ast.File, name string) *ast.FuncDecl {
-	for _, d := range f.Decls {
-		fd, ok := d.(*ast.FuncDecl)
-		if !ok || fd.Name.Name != name || fd.Recv == nil || len(fd.Recv.List) != 1 {
+func (p *ewPkg) fifoMethod(name string) *ast.FuncDecl {
+	for _, fd := range p.funcs[name] {
+		if fd.Recv == nil || len(fd.Recv.List) != 1 {
 			continue
 		}
 		t := fd.Recv.List[0].Type
@@ -439,19 +993,18 @@ func ewFifoMethod(f *ast.File, name string) *ast.FuncDecl {
 }
 
 // ewReleaseSticky: ReleaseGoroutines does `<recv>.<flag> = true` before Broadcast(), and the
-// `for len(buffer) == 0` loop of PopMultiple starts (before cond.Wait()) with
-// `if <recv>.<flag> { return }`.  The skeleton of both functions (Broadcast present, Wait inside
-// the loop) is required; the flag is reported as present or absent.
-func ewReleaseSticky() bool {
-	_, f := parseFile("common/event/fifobuffer.go")
-	rg := ewFifoMethod(f, "ReleaseGoroutines")
-	pm := ewFifoMethod(f, "PopMultiple")
+// `for len(buffer) == 0` loop of PopMultiple tests that flag before cond.Wait() and returns
+// (an if, or a case of a condition switch).  The skeleton of both functions (Broadcast present,
+// Wait inside the loop) is required; the flag is reported as present or absent.
+func (p *ewPkg) ewReleaseSticky() bool {
+	rg := p.fifoMethod("ReleaseGoroutines")
+	pm := p.fifoMethod("PopMultiple")
 	if rg == nil || pm == nil {
 		die("eventwriter: FifoBuffer.ReleaseGoroutines / PopMultiple not found")
 	}
 	flag := ""
 	sawBroadcast := false
-	for _, st := range rg.Body.List {
+	for _, st := range ewFlatten(p.body(rg).List) {
 		switch v := st.(type) {
 		case *ast.AssignStmt:
 			if len(v.Lhs) == 1 && len(v.Rhs) == 1 && !sawBroadcast {
@@ -472,8 +1025,8 @@ func ewReleaseSticky() bool {
 	}
 	// the waiting loop of PopMultiple
 	var loop *ast.ForStmt
-	ast.Inspect(pm, func(x ast.Node) bool {
-		if fs, ok := x.(*ast.ForStmt); ok && loop == nil && len(ewFindCalls(fs.Body, "Wait")) == 1 {
+	ast.Inspect(p.body(pm), func(x ast.Node) bool {
+		if fs, ok := x.(*ast.ForStmt); ok && loop == nil && len(p.findCalls(fs.Body, "Wait")) == 1 {
 			loop = fs
 		}
 		return loop == nil
@@ -484,23 +1037,59 @@ func ewReleaseSticky() bool {
 	if flag == "" {
 		return false
 	}
-	for _, st := range loop.Body.List {
-		if es, ok := st.(*ast.ExprStmt); ok {
-			if c, ok := es.X.(*ast.CallExpr); ok && ewCallName(c) == "Wait" {
+	returns := func(list []ast.Stmt) bool {
+		for _, bs := range list {
+			if _, ok := bs.(*ast.ReturnStmt); ok {
+				return true
+			}
+		}
+		return false
+	}
+	// the flag itself, `flag == true`, `(flag)`: not negated
+	positive := func(e ast.Expr) bool {
+		for {
+			if pe, ok := e.(*ast.ParenExpr); ok {
+				e = pe.X
+				continue
+			}
+			break
+		}
+		switch v := e.(type) {
+		case *ast.SelectorExpr:
+			return v.Sel.Name == flag
+		case *ast.BinaryExpr:
+			if v.Op == token.EQL {
+				if id, ok := v.Y.(*ast.Ident); ok && id.Name == "true" {
+					if s, ok := v.X.(*ast.SelectorExpr); ok {
+						return s.Sel.Name == flag
+					}
+				}
+			}
+		}
+		return false
+	}
+	for _, st := range ewFlatten(loop.Body.List) {
+		if len(p.findCalls(st, "Wait")) > 0 {
+			if _, isIf := st.(*ast.IfStmt); !isIf {
 				return false // Wait comes first
 			}
 		}
-		is, ok := st.(*ast.IfStmt)
-		if !ok || is.Init != nil || is.Else != nil {
-			continue
-		}
-		sel, ok := is.Cond.(*ast.SelectorExpr)
-		if !ok || sel.Sel.Name != flag {
-			continue
-		}
-		for _, bs := range is.Body.List {
-			if _, ok := bs.(*ast.ReturnStmt); ok {
+		switch v := st.(type) {
+		case *ast.IfStmt:
+			if v.Init == nil && positive(v.Cond) && returns(v.Body.List) {
 				return true
+			}
+			if len(p.findCalls(v, "Wait")) > 0 {
+				return false
+			}
+		case *ast.SwitchStmt:
+			if v.Tag == nil && v.Init == nil {
+				for _, c := range v.Body.List {
+					cc := c.(*ast.CaseClause)
+					if len(cc.List) == 1 && positive(cc.List[0]) && returns(cc.Body) {
+						return true
+					}
+				}
 			}
 		}
 	}
@@ -568,108 +1157,128 @@ func ewIsChanSend(n ast.Node) bool {
 	return ok && ewMentions(s.Chan, "toBatchMessagesChan")
 }
 
-// names of the functions of writer.go reachable from the calls inside n (n included), through
-// the bodies of functions / methods declared in writer.go
-func ewCallClosure(f *ast.File, n ast.Node, before token.Pos, into map[string]bool, depth int) {
+// names of the functions of the package reachable from the calls inside n that satisfy take,
+// through the bodies of the functions / methods declared in the package
+func (p *ewPkg) callClosure(n ast.Node, take func(*ast.CallExpr) bool, into map[string]bool, depth int) {
 	if n == nil || depth > 5 {
 		return
 	}
 	ast.Inspect(n, func(x ast.Node) bool {
 		c, ok := x.(*ast.CallExpr)
-		if !ok || (before != token.NoPos && c.Pos() >= before) {
+		if !ok || (take != nil && !take(c)) {
 			return true
 		}
 		name := ewCallName(c)
 		if name == "" || into[name] {
 			return true
 		}
-		for _, d := range f.Decls {
-			if fd, ok := d.(*ast.FuncDecl); ok && fd.Name.Name == name && fd.Body != nil {
-				into[name] = true
-				ewCallClosure(f, fd.Body, token.NoPos, into, depth+1)
-			}
+		for _, fd := range p.funcs[name] {
+			into[name] = true
+			p.callClosure(fd.Body, nil, into, depth+1)
 		}
 		return true
 	})
 }
 
-func ewPublishShape(f *ast.File) ewPub {
-	wt := findFunc(f, "KafkaWriter", "WriteEventWithTimestamp")
-	we := findFunc(f, "KafkaWriter", "WriteEvent")
-	if wt == nil || we == nil || wt.Body == nil || we.Body == nil {
+func (p *ewPkg) ewPublishShape() ewPub {
+	wt := p.fn("KafkaWriter", "WriteEventWithTimestamp")
+	we := p.fn("KafkaWriter", "WriteEvent")
+	if wt == nil || we == nil {
 		die("eventwriter: (*KafkaWriter).WriteEvent / WriteEventWithTimestamp not found")
 	}
-	// every send on the channel in the whole file
+	// every send on the channel in the whole package (as written, nothing inlined)
 	total := 0
-	for _, d := range f.Decls {
-		if fd, ok := d.(*ast.FuncDecl); ok && fd.Body != nil {
+	for _, fds := range p.funcs {
+		for _, fd := range fds {
 			occ, _, _ := ewScan(fd.Body, ewIsChanSend)
 			total += len(occ)
 		}
 	}
-	sends, selects, gos := ewScan(wt.Body, ewIsChanSend)
+	root := p.body(wt) // helpers inlined
+	sends, selects, gos := ewScan(root, ewIsChanSend)
 	if len(sends) == 0 {
 		die("eventwriter: WriteEventWithTimestamp has no send on toBatchMessagesChan (hand-over to the batching loop not recognised)")
 	}
 	// WriteEvent -> WriteEventWithTimestamp, synchronously
-	calls, sel2, gos2 := ewScan(we.Body, func(n ast.Node) bool {
+	calls, sel2, gos2 := ewScan(p.body(we), func(n ast.Node) bool {
 		c, ok := n.(*ast.CallExpr)
 		return ok && ewCallName(c) == "WriteEventWithTimestamp"
 	})
 	if len(calls) != 1 {
 		die("eventwriter: WriteEvent does not call WriteEventWithTimestamp exactly once")
 	}
-	p := ewPub{
+	pub := ewPub{
 		single:   total == 1 && len(sends) == 1,
 		plain:    true,
 		noSelect: selects+sel2 == 0,
 		noGo:     gos+gos2 == 0 && calls[0].plain,
 	}
-	p.convertFirst = true
-	for _, o := range sends {
-		if !o.plain {
-			p.plain = false
-		}
-		s := o.node.(*ast.SendStmt)
-		// the expression that yields the value: the call itself, or the last assignment to the
-		// local before the send
-		var src ast.Expr
-		switch v := s.Value.(type) {
-		case *ast.CallExpr:
-			src = v
-		case *ast.Ident:
-			var last *ast.AssignStmt
-			ast.Inspect(wt.Body, func(x ast.Node) bool {
-				as, ok := x.(*ast.AssignStmt)
-				if !ok || as.Pos() >= s.Pos() {
-					return true
-				}
-				for _, l := range as.Lhs {
-					if id, ok := l.(*ast.Ident); ok && id.Name == v.Name {
-						if last == nil || as.Pos() > last.Pos() {
-							last = as
-						}
-					}
-				}
-				return true
-			})
-			if last != nil && len(last.Rhs) == 1 {
-				if c, ok := last.Rhs[0].(*ast.CallExpr); ok {
-					src = c
-				}
+	// order of the nodes of the inlined body (positions are meaningless across inlined helpers)
+	order := map[ast.Node]int{}
+	k := 0
+	ast.Inspect(root, func(x ast.Node) bool {
+		if x != nil {
+			k++
+			if _, seen := order[x]; !seen {
+				order[x] = k
 			}
 		}
-		if src == nil {
-			p.convertFirst = false
+		return true
+	})
+	// the expression a local holds at node index `at`: its last assignment before
+	trace := func(name string, at int) (ast.Expr, int) {
+		var best ast.Expr
+		bestAt := -1
+		ast.Inspect(root, func(x ast.Node) bool {
+			as, ok := x.(*ast.AssignStmt)
+			if !ok || order[as] >= at || order[as] <= bestAt {
+				return true
+			}
+			for i, l := range as.Lhs {
+				if id, ok := l.(*ast.Ident); ok && id.Name == name {
+					switch {
+					case len(as.Rhs) == len(as.Lhs):
+						best, bestAt = as.Rhs[i], order[as]
+					case len(as.Rhs) == 1:
+						best, bestAt = as.Rhs[0], order[as]
+					}
+				}
+			}
+			return true
+		})
+		return best, bestAt
+	}
+	pub.convertFirst = true
+	for _, o := range sends {
+		if !o.plain {
+			pub.plain = false
+		}
+		s := o.node.(*ast.SendStmt)
+		at := order[s]
+		var src ast.Expr = s.Value
+		for hop := 0; hop < 6; hop++ {
+			id, ok := src.(*ast.Ident)
+			if !ok {
+				break
+			}
+			src, at = trace(id.Name, at)
+			if src == nil {
+				break
+			}
+		}
+		call, ok := src.(*ast.CallExpr)
+		if !ok {
+			pub.convertFirst = false
 			continue
 		}
 		fromSrc := map[string]bool{}
-		ewCallClosure(f, src, token.NoPos, fromSrc, 0)
+		p.callClosure(call, nil, fromSrc, 0)
 		before := map[string]bool{}
-		ewCallClosure(f, wt.Body, s.Pos(), before, 0)
+		sendAt := order[s]
+		p.callClosure(root, func(c *ast.CallExpr) bool { return order[c] < sendAt }, before, 0)
 		if !fromSrc["kafkaEventToKafkaMessage"] || !before["internalEventToKafkaEvent"] {
-			p.convertFirst = false
+			pub.convertFirst = false
 		}
 	}
-	return p
+	return pub
 }
